@@ -267,36 +267,58 @@ fn execute(plan: &Value, w: &World, cfg: &Cfg, slot: usize) -> Outcome {
     let endpoint = server::Endpoint::start(built.behaviour.clone());
     let https = plan["script"]["https"].as_bool().unwrap_or(false);
     let url = format!("{}://127.0.0.1:{}{}", if https { "https" } else { "http" }, endpoint.port, plan["path"].as_str().unwrap_or("/graphql"));
-    let mut args: Vec<String> = vec!["introspect-schema".into()];
-    if plan["url_first"].as_bool().unwrap_or(true) {
-        args.push(url.clone());
-    }
-    if plan["is_one_of"].as_bool().unwrap_or(false) {
-        args.push("--is-one-of".into());
-    }
-    for h in &headers {
-        if plan["header_eq"].as_bool().unwrap_or(true) || h.starts_with('-') {
-            args.push(format!("--header={}", h));
+    // Argument groups; their order (headers keep their relative order, which is observable) and
+    // the `--opt value` / `--opt=value` spelling are part of the plan (`arg_order`, `arg_forms`).
+    let forms = plan["arg_forms"].as_u64().unwrap_or(0);
+    let opt = |name: &str, value: &str, bit: u64| -> Vec<String> {
+        if forms & bit != 0 && !value.starts_with('-') {
+            vec![name.to_string(), value.to_string()]
         } else {
-            args.push("--header".into());
-            args.push(h.clone());
+            vec![format!("{}={}", name, value)]
         }
+    };
+    let mut groups: Vec<Vec<String>> = vec![vec![url.clone()]];
+    if plan["is_one_of"].as_bool().unwrap_or(false) {
+        groups.push(vec!["--is-one-of".into()]);
     }
     if plan["specify_by_url"].as_bool().unwrap_or(false) {
-        args.push("--specify-by-url".into());
-    }
-    if !plan["output"].is_null() {
-        args.push("--output".into());
-        args.push(out_arg.clone());
-    }
-    if let Some(t) = plan["authorization"].as_str() {
-        args.push(format!("--authorization={}", t));
+        groups.push(vec!["--specify-by-url".into()]);
     }
     if plan["no_ssl"].as_bool().unwrap_or(false) {
-        args.push("--no-ssl".into());
+        groups.push(vec!["--no-ssl".into()]);
     }
-    if !plan["url_first"].as_bool().unwrap_or(true) {
-        args.push(url.clone());
+    if !plan["output"].is_null() {
+        groups.push(opt("--output", &out_arg, 1));
+    }
+    if let Some(t) = plan["authorization"].as_str() {
+        groups.push(opt("--authorization", t, 2));
+    }
+    let header_group: Vec<usize> = (0..headers.len()).map(|_| usize::MAX).collect();
+    let first_header_slot = groups.len();
+    for (i, h) in headers.iter().enumerate() {
+        let eq = plan["header_eq"].as_bool().unwrap_or(true) || h.starts_with('-') || (forms >> (3 + (i % 8))) & 1 == 0;
+        groups.push(if eq { vec![format!("--header={}", h)] } else { vec!["--header".into(), h.clone()] });
+    }
+    let _ = header_group;
+    // deterministic shuffle of the group positions from `arg_order`; header groups are then put
+    // back into their original relative order
+    let order_seed = plan["arg_order"].as_u64().unwrap_or(0);
+    let mut idx: Vec<usize> = (0..groups.len()).collect();
+    if order_seed != 0 {
+        let mut r = simcore::Rng::new(order_seed);
+        r.shuffle(&mut idx);
+        let header_positions: Vec<usize> = idx.iter().enumerate().filter(|(_, g)| **g >= first_header_slot).map(|(p, _)| p).collect();
+        let mut hs: Vec<usize> = header_positions.iter().map(|p| idx[*p]).collect();
+        hs.sort();
+        for (p, g) in header_positions.iter().zip(hs) {
+            idx[*p] = g;
+        }
+    } else if !plan["url_first"].as_bool().unwrap_or(true) {
+        idx.rotate_left(1);
+    }
+    let mut args: Vec<String> = vec!["introspect-schema".into()];
+    for g in idx {
+        args.extend(groups[g].iter().cloned());
     }
     let env: Vec<(&str, &str)> = match plan["env"].as_str() {
         Some("rust-log-trace") => vec![("RUST_LOG", "trace")],
@@ -539,7 +561,7 @@ fn minimise(p: &Value, class: &str, w: &World, cfg: &Cfg, slot: usize, budget: u
             i += 1;
         }
     }
-    for (k, val) in [("authorization", Value::Null), ("no_ssl", json!(false)), ("is_one_of", json!(false)), ("specify_by_url", json!(false)), ("url_first", json!(true)), ("header_eq", json!(true)), ("path", json!("/graphql")), ("env", json!("clean")), ("output_form", json!("abs")), ("sink", json!("normal"))] {
+    for (k, val) in [("authorization", Value::Null), ("no_ssl", json!(false)), ("is_one_of", json!(false)), ("specify_by_url", json!(false)), ("url_first", json!(true)), ("header_eq", json!(true)), ("path", json!("/graphql")), ("env", json!("clean")), ("output_form", json!("abs")), ("sink", json!("normal")), ("arg_order", json!(0)), ("arg_forms", json!(0))] {
         let mut c = best.clone();
         c[k] = val;
         try_plan(c, &mut best, &mut attempts);
